@@ -54,6 +54,9 @@ def work_logic(lname):
             results.append(discharge(enum_ob(f'C02.saturation.{L}.{rc.__name__}.skips-justified', not bad, where=where, logic=L, rule=rc.__name__,
                                              clause='the rule body declines to offer an instance only when that instance is already on the branch (or was applied)',
                                              cex=dict(reasons=sorted(set(bad))))))
+    # identity rule: every substitution instance is offered, in every iteration order of the PredNodes set
+    from checks import c01
+    results += [r for r in c01.identity_order_obligations(logic, funcs, 'C02') if r.name.endswith('.complete')]
     # quantifier fat rules: ExtendedQuantifierRule._get_node_targets
     results += fat_saturation(logic, funcs)
     results += serial_saturation(logic, funcs)
@@ -278,6 +281,10 @@ def run(ctx):
     from checks import helpers_ob
     helpers_ob.helper_obligations(ctx, 'C02')
     bounded_models(ctx)
+    def _rid(r):
+        from checks import c09
+        return c09.replay_identity_order(r)
+    ctx.replayers['C02.identity.'] = _rid
     ctx.replayers['C02.'] = lambda r: dict(reproduced=None, detail='see counterexample / meta')
 
 def replay(payload):
